@@ -1576,6 +1576,7 @@ func (is *indexSearch) seriesCount(name []byte) (uint64, error) {
 func (is *indexSearch) getSeriesCount(prefix []byte) (uint64, error) {
 	ts := &is.ts
 	mp := &is.mp
+	deleted := is.idx.GetDeletedTSIDs()
 	ts.Seek(prefix)
 	var seriesCount uint64
 	for ts.NextItem() {
@@ -1593,7 +1594,17 @@ func (is *indexSearch) getSeriesCount(prefix []byte) (uint64, error) {
 		if err := mp.InitOnlyTail(item, tail); err != nil {
 			return 0, err
 		}
-		seriesCount += uint64(mp.TSIDsLen())
+		if deleted == nil || deleted.Len() == 0 {
+			seriesCount += uint64(mp.TSIDsLen())
+			continue
+		}
+		// deleted series are not counted, as they are not listed by any search
+		mp.ParseTSIDs()
+		for _, tsid := range mp.TSIDs {
+			if !deleted.Has(tsid) {
+				seriesCount++
+			}
+		}
 	}
 	return seriesCount, nil
 }
